@@ -12,6 +12,8 @@ A model is what the sorter looks at and nothing else:
 existing key in place (`dictSet`). `require_update_action_models` is a plain list (`append`).
 What the code raises is `Except.error`. Python's own `RecursionError` is not modelled
 (`recursion_count` is; see `sort_total` in Props/C11).
+The model follows /repo as of commit 4fca813 (self-base reported; `__sort_models` orders only the
+module's own classes).
 -/
 namespace Dcg.Model.Sort
 
@@ -53,14 +55,18 @@ def classifyStep (sorted : List Model) (upd : List Path) (m : Model) : Option (L
   else
     none
 
-def classify : List Model → List Model → List Path → Cls
-  | [], s, u => ⟨s, u, []⟩
+/-- `any(b.reference and b.reference.path == model.path for b in model.base_classes)` -/
+def selfBase (m : Model) : Bool := m.bases.contains m.path
+
+/-- the classification loop; `none` = the `raise … circular base classes in [path]` at the top of the
+loop body: a model that names itself as base is reported before it is classified -/
+def classify : List Model → List Model → List Path → Option Cls
+  | [], s, u => some ⟨s, u, []⟩
   | m :: ms, s, u =>
-    match classifyStep s u m with
+    if selfBase m then none
+    else match classifyStep s u m with
     | some (s', u') => classify ms s' u'
-    | none =>
-      let c := classify ms s u
-      { c with unres := m :: c.unres }
+    | none => (classify ms s u).map (fun c => { c with unres := m :: c.unres })
 
 /-! ### the base-class bubble -/
 
@@ -96,7 +102,7 @@ def bubble : Nat → List Model → Option (List Model)
 /-! ### the circular stage -/
 
 inductive Err where
-  | circularBases   -- "circular base classes in […]"
+  | circularBases   -- "circular base classes in […]" (the bubble ran out, or a model is its own base)
   | unresolved      -- "A Parser can not resolve classes: [class: … references: …]"
   deriving DecidableEq, Repr
 
@@ -131,13 +137,16 @@ def finish (c : Cls) : Except Err Out :=
 /-- `sort_data_models(ms, sorted, upd, recursion_count)` -/
 def sortGo : Nat → List Model → List Model → List Path → Except Err Out
   | 0, ms, s, u =>
-    let c := classify ms s u
-    if c.unres.isEmpty then .ok ⟨[], c.sorted, c.upd⟩ else finish c
+    match classify ms s u with
+    | none => .error .circularBases
+    | some c => if c.unres.isEmpty then .ok ⟨[], c.sorted, c.upd⟩ else finish c
   | rc + 1, ms, s, u =>
-    let c := classify ms s u
-    if c.unres.isEmpty then .ok ⟨[], c.sorted, c.upd⟩
-    else if c.sorted.length != s.length then sortGo rc c.unres c.sorted c.upd
-    else finish c
+    match classify ms s u with
+    | none => .error .circularBases
+    | some c =>
+      if c.unres.isEmpty then .ok ⟨[], c.sorted, c.upd⟩
+      else if c.sorted.length != s.length then sortGo rc c.unres c.sorted c.upd
+      else finish c
 
 def sortDataModels (rc : Nat) (ms : List Model) : Except Err Out := sortGo rc ms [] []
 
@@ -155,30 +164,32 @@ def lexLe : List Nat → List Nat → Bool
   | _ :: _, [] => false
   | a :: as, b :: bs => if a < b then true else if b < a then false else lexLe as bs
 
-/-- `not (baseclasses - resolved)` with `baseclasses = {type hints} - {class_name}` -/
-def basesResolved (resolved : List (List Nat)) (m : Named) : Bool :=
-  m.bases.all (fun b => b == m.name || resolved.contains b)
+/-- `not (baseclasses - resolved)` with
+`baseclasses = ({type hints of bases with a reference} & class_names) - {class_name}`:
+only classes of this module take part -/
+def basesResolved (names resolved : List (List Nat)) (m : Named) : Bool :=
+  m.bases.all (fun b => !names.contains b || b == m.name || resolved.contains b)
 
 /-- `for i in range(len(models) - 1)`: `cur` is `models[i]`; after a swap the same model is
 looked at again at `i+1`; the last position is never examined -/
-def sweep (resolved : List (List Nat)) (cur : Named) (acc : List Named) (changed : Bool) :
+def sweep (names resolved : List (List Nat)) (cur : Named) (acc : List Named) (changed : Bool) :
     List Named → List Named × Bool
   | [] => (acc ++ [cur], changed)
   | nxt :: rest =>
-    if basesResolved resolved cur then sweep (cur.name :: resolved) nxt (acc ++ [cur]) changed rest
-    else sweep resolved cur (acc ++ [nxt]) true rest
+    if basesResolved names resolved cur then sweep names (cur.name :: resolved) nxt (acc ++ [cur]) changed rest
+    else sweep names resolved cur (acc ++ [nxt]) true rest
 
 /-- `while changed:` with fuel; `none` = the fuel ran out (the code would still be looping) -/
-def swapLoop (imported : List (List Nat)) : Nat → List Named → Option (List Named)
+def swapLoop (names imported : List (List Nat)) : Nat → List Named → Option (List Named)
   | 0, _ => none
   | f + 1, l =>
     match l with
     | [] => some []
     | x :: xs =>
-      let (l', changed) := sweep imported x [] false xs
-      if changed then swapLoop imported f l' else some l'
+      let (l', changed) := sweep names imported x [] false xs
+      if changed then swapLoop names imported f l' else some l'
 
 def sortModels (imported : List (List Nat)) (fuel : Nat) (l : List Named) : Option (List Named) :=
-  swapLoop imported fuel (sortBy (fun a b => lexLe a.name b.name) l)
+  swapLoop (l.map (·.name)) imported fuel (sortBy (fun a b => lexLe a.name b.name) l)
 
 end Dcg.Model.Sort
